@@ -57,7 +57,9 @@ theorem list_refines (E : Env) (f : FieldSpec) (xs : List Val) (op op' : LOp) (h
     simp only [normOp] at h
     cases hv : validate E f v with
     | error e => simp [hv, Except.toOption] at h
-    | ok v' => simp [hv, Except.toOption] at h; subst h; simp [lstep, bstep, hv]
+    | ok v' =>
+      simp [hv, Except.toOption] at h; subst h
+      cases hr : resolveIdx xs.length i <;> simp [lstep, bstep, hv, hr]
   | setSlice a b st it =>
     simp only [normOp] at h
     cases hm : mapR (validate E f) (itemsOf it) with
@@ -177,12 +179,12 @@ theorem list_inv (E : Env) (f : FieldSpec) (xs : List Val) (op : LOp) (hx : AllO
       | mk zs e => cases e <;> simpa [he] using this
   | setIdx i v =>
     simp only [lstep]
-    cases hv : validate E f v with
-    | error e => simpa using hx
-    | ok v' =>
-      cases hr : resolveIdx xs.length i with
-      | none => simpa using hx
-      | some p => exact setAt_all_ok hx p ⟨v, hv⟩
+    cases hr : resolveIdx xs.length i with
+    | none => simpa using hx
+    | some p =>
+      cases hv : validate E f v with
+      | error e => simpa using hx
+      | ok v' => exact setAt_all_ok hx p ⟨v, hv⟩
   | setSlice a b st it =>
     simp only [lstep]
     cases hm : mapR (validate E f) (itemsOf it) with
@@ -271,7 +273,8 @@ theorem list_run_inv (E : Env) (f : FieldSpec) : ∀ (ops : List LOp) (xs : List
     exact list_run_inv E f rest _ (list_inv E f xs op h (ho op (by simp))) (fun o hm => ho o (by simp [hm]))
 
 /-- **A rejected single-element insertion or replacement leaves the list exactly as it was** (C06 for typed lists):
-    `append`, `insert` and index assignment validate before they delegate to `list`. -/
+    `append` and `insert` validate before they delegate to `list`; index assignment checks first that the index names an item
+    (F76), then validates, then delegates. -/
 theorem list_single_rejected_unchanged (E : Env) (f : FieldSpec) (xs : List Val) (op : LOp) (e : Field.Err)
     (hop : match op with | .append _ => True | .insert _ _ => True | .setIdx _ _ => True | _ => False)
     (h : (lstep E f xs op).2 = .rejected e) : (lstep E f xs op).1 = xs := by
@@ -280,11 +283,11 @@ theorem list_single_rejected_unchanged (E : Env) (f : FieldSpec) (xs : List Val)
   · rename_i i v; simp only [lstep] at h ⊢; cases hv : validate E f v <;> simp [hv] at h ⊢
   · rename_i i v
     simp only [lstep] at h ⊢
-    cases hv : validate E f v with
-    | error e' => simp
-    | ok v' =>
-      simp only [hv] at h ⊢
-      cases hr : resolveIdx xs.length i <;> simp [hr] at h ⊢
+    cases hr : resolveIdx xs.length i with
+    | none => simp
+    | some p =>
+      simp only [hr] at h ⊢
+      cases hv : validate E f v <;> simp [hv] at h ⊢
 
 /-! ### Typed dicts -/
 
